@@ -745,7 +745,7 @@ class Ctx:
             plan = [("default", full), ("default2", full), ("presolve", 3 * full)]
         elif kinds <= {"real"}:
             short = min(2500, full)
-            plan = [("pnra", short), ("nra", short), ("default", short), ("cvc5", full),
+            plan = [("pnra", short), ("cvc5", full), ("nra", short), ("default", short),
                     ("pnra", full), ("nra", full), ("default", full)]
         else:
             plan = [("default", full)]
